@@ -18,7 +18,7 @@ def run(ctx):
     res, stats, found, nedges, nvisited = cycle_c16.run(ctx, 1500 if quick else 10000, 6 if quick else 7, (1, 2), ctx.seed)
     for what, trace in found:
         last = trace[-1] if trace else {}
-        ctx.mismatch('C16:cycle:%s:pony=%s' % (last.get('op'), last.get('out')), what, {'cycle_trace': trace})
+        ctx.mismatch('C16:cycle:%s:pony=%s' % (last.get('op'), last.get('out')), what, {'cycle_trace': trace[1:], 'cycle_init': trace[0]})
     ctx.coverage['states'] += res.distinct
     ctx.coverage['transitions'] += res.generated
     ctx.coverage['traces_validated_against_impl'] += stats['behaviours']
@@ -29,7 +29,7 @@ def replay(ctx, rep):
     if 'cycle_trace' in rep:
         import random
         w = cycle_c16.World(ctx.scratch.path('db', 'cycle.sqlite'))
-        w.reset()
+        w.reset(rep.get('cycle_init'))
         st = {'objs': {}}
         for t in rep['cycle_trace']:
             if t['out'] == 'crash':
